@@ -57,6 +57,8 @@ func c02Run(f []string) string {
 		return c02NamedRun(f)
 	case "rx", "rxkey":
 		return c02RxRun(f)
+	case "dissectpipe":
+		return c02PoolRun(f)
 	case "filt", "vis", "idx":
 		return c02FilterRun(f)
 	case "ctx":
@@ -254,6 +256,8 @@ func c02Gen(r *Rand, tier string) []string {
 	out = append(out, c02FilterGen(NewRand(r.U64()), tier)...)
 	// {name} through the real regex wrapper's name table
 	out = append(out, c02NamedGen(NewRand(r.U64()), tier)...)
+	// dissect matcher, one worker, all matches held across the IntPool refill (every 1024 matches)
+	out = append(out, c02PoolGen(NewRand(r.U64()), tier)...)
 	// the regex engine itself against the model's leftmost-first matcher (fragment of the syntax)
 	out = append(out, c02RxGen(NewRand(r.U64()), tier)...)
 	// the matcher the flags select (helpers.BuildMatcherFromArguments)
